@@ -5251,13 +5251,16 @@ func readWithRuns(b *Bitmap, data []byte, pos int, keyN uint32) error {
 		switch c.typ() {
 		case containerRun:
 			runCount := binary.LittleEndian.Uint16(data[pos : pos+runCountHeaderSize])
-			c.setRuns((*[0xFFFFFFF]interval16)(unsafe.Pointer(&data[pos+runCountHeaderSize]))[:runCount:runCount])
-			runs := c.runs()
-
-			for o := range runs { // must convert from start:length to start:end :(
-				runs[o].last = runs[o].start + runs[o].last
+			src := (*[0xFFFFFFF]interval16)(unsafe.Pointer(&data[pos+runCountHeaderSize]))[:runCount:runCount]
+			// must convert from start:length to start:end :( -- into a copy,
+			// the caller's buffer (possibly a read-only mmap) is not ours to rewrite.
+			runs := make([]interval16, runCount)
+			for o := range src {
+				runs[o] = interval16{start: src[o].start, last: src[o].start + src[o].last}
 			}
-			pos += int((runCount * interval16Size) + runCountHeaderSize)
+			c.setMapped(false)
+			c.setRuns(runs)
+			pos += int(runCount)*interval16Size + runCountHeaderSize
 		case containerArray:
 			c.setArray((*[0xFFFFFFF]uint16)(unsafe.Pointer(&data[pos]))[:c.N():c.N()])
 			pos += int(c.N() * 2)
